@@ -84,6 +84,7 @@ func init() {
 	add("C05", "C05.handed (see C02.handed: the transactions of a block the hashgraph produced are not withheld from the application).", as1(handedRule, "C05.handed"))
 	add("C10", "C10.recorded (a block signature is recorded only for a member of the validator-set of the block's round — not for any peer of the repertoire; see C09.record).", sharedAs(c09record, map[string]string{"C09.record": "C10.recorded"}))
 	add("C11", "C11.norefusal (Hashgraph.Bootstrap returns only errors its callees returned: it makes no acceptance decision of its own about the database it replays).", as1(noRefusalRule, "C11.norefusal"))
+	add("C01", "C01.accepted (the accepted receipts of a block are applied in the block's own order, each by the operation of its type, straight in the loop over the receipts — not regrouped in a map: the resulting validator-set, whose order is hashed, is the same on every node; see C10.accepted).", sharedAs(c10accepted, map[string]string{"C10.accepted": "C01.accepted"}))
 	add("C01", "C01.mapcut (see C03.mapcut).", as(mapCutRule, "C01.mapcut", consensusFuncs))
 	add("C13", "C13.mapcut (see C03.mapcut, for the functions that build a frame).", as(mapCutRule, "C13.mapcut", frameFuncs))
 }
